@@ -5,6 +5,7 @@ package main
 // with HcModel/PairVerify.lean on symbolic histories over 1-2 connections and a changing pairing store.
 
 import (
+	"bufio"
 	"bytes"
 	"crypto/ed25519"
 	"fmt"
@@ -13,6 +14,7 @@ import (
 	"io"
 	"math/rand"
 	"net"
+	"net/http"
 	"strings"
 	"sync"
 	"time"
@@ -431,6 +433,7 @@ func pvCorpus() [][]pvStep {
 func checkC03(c *Ctx) {
 	c03Handover(c)
 	c03Revocation(c)
+	c03PlainFraming(c)
 	c.SetRule("histories of 1-10 symbolic pair-verify messages on 1-2 interleaved connections with a pairing store that changes between messages " +
 		"(alphabet: start with good / wrong-length key; finish genuine, unknown name, entity without key, stored key ≠ signer, garbage/empty signature, " +
 		"signature over stale/zero ephemeral key, other name, other connection's accessory key; sealed under zero / random / other exchange's / other connection's key; " +
@@ -666,23 +669,25 @@ func hoSchedule(r *rand.Rand) []string {
 	}
 	for len(ops) < 3+r.Intn(6) {
 		var cand []string
-		if !pending {
-			cand = append(cand, "readStart", "readStart")
-		}
-		if !crypt && !wrote && r.Intn(3) > 0 {
-			cand = append(cand, "setCrypt", "setCrypt")
-		}
-		if !wrote {
-			cand = append(cand, "writeResp")
-		}
-		if wrote && crypt && !wire && !sent {
-			cand = append(cand, "peerSends", "peerSends")
-		}
-		if !wire {
-			cand = append(cand, "foreign")
-		}
 		if pending && wire {
-			cand = append(cand, "readDone", "readDone", "readDone")
+			// bytes are in flight towards a waiting read: the read completes on its own, so nothing else may be scheduled first
+			cand = []string{"readDone"}
+		} else {
+			if !pending {
+				cand = append(cand, "readStart", "readStart")
+			}
+			if !crypt && !wrote && r.Intn(3) > 0 {
+				cand = append(cand, "setCrypt", "setCrypt")
+			}
+			if !wrote {
+				cand = append(cand, "writeResp")
+			}
+			if wrote && crypt && !wire && !sent {
+				cand = append(cand, "peerSends", "peerSends")
+			}
+			if !wire {
+				cand = append(cand, "foreign")
+			}
 		}
 		if len(cand) == 0 {
 			break
@@ -703,6 +708,9 @@ func hoSchedule(r *rand.Rand) []string {
 			pending, wire = false, false
 		}
 		ops = append(ops, op)
+	}
+	if pending && wire {
+		ops = append(ops, "readDone")
 	}
 	return ops
 }
@@ -1004,5 +1012,176 @@ func c03Revocation(c *Ctx) {
 			c.Count(id, true, "stream:revocation", "revocation:"+p.b+" inside "+p.a+" @ "+where)
 			f.Close()
 		}
+	}
+}
+
+// ---- plaintext request framing (hap/connection.go plainRequest vs HcModel/PlainFraming.lean) ---------------------------------
+
+// c03PlainFraming: a connection without cryptographer receives a stream of requests (headers drawn from a pool that
+// net/http's own parser has classified: content length n, or unusable), with bodies of the announced, a shorter or a longer
+// length, cut into raw reads at arbitrary places, with responses written at the right and at the wrong moments, and with
+// bytes glued behind a complete request. Per event the real connection and the model agree on accepted / refused, and
+// what the real Read hands on is exactly what arrived.
+func c03PlainFraming(c *Ctx) {
+	pool := []string{
+		"POST /pair-verify HTTP/1.1\r\nHost: x\r\nContent-Type: application/pairing+tlv8\r\nContent-Length: 37\r\n\r\n",
+		"POST /pair-setup HTTP/1.1\r\nHost: x\r\nContent-Length: 1\r\n\r\n",
+		"POST /pair-setup HTTP/1.1\r\nContent-Length: 0\r\nHost: x\r\n\r\n",
+		"GET /accessories HTTP/1.1\r\nHost: x\r\n\r\n",
+		"GET /accessories HTTP/1.1\nHost: x\n\n",
+		"PUT /characteristics HTTP/1.1\r\nHost: x\r\ncontent-length:   300  \r\n\r\n",
+		"POST /pair-verify HTTP/1.1\r\nHost: x\r\nTransfer-Encoding: chunked\r\n\r\n",
+		"POST /pair-verify HTTP/1.1\r\nHost: x\r\nContent-Length: 5\r\nContent-Length: 6\r\n\r\n",
+		"POST /pair-verify HTTP/1.1\r\nHost: x\r\nContent-Length: abc\r\n\r\n",
+		"\r\nGET / HTTP/1.1\r\nHost: x\r\n\r\n",
+		"GARBAGE\r\n\r\n",
+		"POST /identify HTTP/1.0\r\nContent-Length: 2\r\n\r\n",
+		"POST /x HTTP/1.1\r\nHost: x\r\nContent-Length: 5\n\r\n",
+	}
+	var tbl []string
+	cls := make([]int, len(pool))
+	for i, h := range pool {
+		req, err := http.ReadRequest(bufio.NewReader(strings.NewReader(h)))
+		cls[i] = -1
+		if err == nil && req.ContentLength >= 0 {
+			cls[i] = int(req.ContentLength)
+			tbl = append(tbl, fmt.Sprintf("%s=%d", hx([]byte(h)), cls[i]))
+		} else {
+			tbl = append(tbl, hx([]byte(h))+"=x")
+		}
+	}
+	table := strings.Join(tbl, ",")
+	n := c.Pick(150, 6000)
+	lines := make([]string, n)
+	impls := make([]string, n)
+	ins := make([]interface{}, n)
+	parallel(n, func(i int) {
+		id := c.CaseID("plain", i)
+		if c.Skip(id) {
+			return
+		}
+		r := c.CaseRng("plain", i)
+		// the stream: requests and response marks
+		type piece struct {
+			b []byte
+			w bool
+		}
+		var pieces []piece
+		for k := 0; k < 1+r.Intn(4); k++ {
+			hi := r.Intn(len(pool))
+			if r.Intn(3) > 0 {
+				hi = r.Intn(6) // mostly usable ones
+			}
+			b := []byte(pool[hi])
+			bl := cls[hi]
+			if bl < 0 {
+				bl = r.Intn(8)
+			}
+			switch r.Intn(8) {
+			case 0:
+				bl += 1 + r.Intn(3) // bytes glued behind the request
+			case 1:
+				if bl > 0 {
+					bl -= 1 + r.Intn(bl) // the body is not complete yet
+				}
+			}
+			b = append(b, randBytes(r, bl)...)
+			pieces = append(pieces, piece{b: b})
+			if r.Intn(6) > 0 {
+				pieces = append(pieces, piece{w: true})
+			}
+			if r.Intn(12) == 0 {
+				pieces = append(pieces, piece{w: true}) // a second write (a response in two pieces)
+			}
+		}
+		// cut the byte runs into raw reads
+		var evs []piece
+		var pend []byte
+		flush := func() {
+			for len(pend) > 0 {
+				k := 1 + r.Intn(len(pend))
+				if r.Intn(3) == 0 {
+					k = len(pend)
+				}
+				if k > 1500 {
+					k = 1500
+				}
+				evs = append(evs, piece{b: pend[:k]})
+				pend = pend[k:]
+			}
+		}
+		for _, p := range pieces {
+			if p.w {
+				if r.Intn(4) > 0 { // sometimes the bytes before and after a response arrive together afterwards
+					flush()
+				}
+				evs = append(evs, p)
+			} else {
+				pend = append(pend, p.b...)
+			}
+		}
+		flush()
+		var toks []string
+		for _, e := range evs {
+			if e.w {
+				toks = append(toks, "w")
+			} else {
+				toks = append(toks, "r "+hx(e.b))
+			}
+		}
+		lines[i] = "plain run 1048576 " + table + " | " + strings.Join(toks, " ; ")
+		// the real connection
+		raw := newHoConn()
+		ctx := hap.NewContextForSecuredDevice(nil)
+		conn := hap.NewConnection(raw, ctx)
+		var outs []string
+		closed := false
+		buf := make([]byte, 4096)
+		for _, e := range evs {
+			if closed {
+				outs = append(outs, "closed")
+				continue
+			}
+			if e.w {
+				conn.Write([]byte("HTTP/1.1 200 OK\r\nContent-Length: 0\r\n\r\n"))
+				outs = append(outs, "ok")
+				continue
+			}
+			raw.push(e.b)
+			nn, err := conn.Read(buf)
+			switch {
+			case err == nil && bytes.Equal(buf[:nn], e.b):
+				outs = append(outs, "ok")
+			case err != nil && nn == 0:
+				outs = append(outs, "refused")
+				closed = true
+				if !raw.isClosed() {
+					outs[len(outs)-1] = "refused-but-open"
+				}
+			default:
+				outs = append(outs, fmt.Sprintf("altered(%d of %d bytes, err=%v)", nn, len(e.b), err))
+			}
+		}
+		raw.Close()
+		impls[i] = strings.Join(outs, " ")
+		ins[i] = toks
+		refused := strings.Contains(impls[i], "refused")
+		c.Count(fmt.Sprint(toks), refused, "stream:plain", fmt.Sprintf("plain:refused=%v", refused), fmt.Sprintf("plain:events<=%d", (len(evs)/4+1)*4))
+	})
+	var live []int
+	var ll []string
+	for i := range lines {
+		if lines[i] != "" {
+			live = append(live, i)
+			ll = append(ll, lines[i])
+		}
+	}
+	model := c.Model(ll)
+	for k, i := range live {
+		m := model[k]
+		if p := strings.Index(m, " | "); p >= 0 {
+			m = m[:p]
+		}
+		c.Same("plain", c.CaseID("plain", i), ins[i], m, impls[i])
 	}
 }
